@@ -50,6 +50,35 @@ def run (ctx):
   disc = q.find_method(repo, con, 'disconnect', 'C09'); ctx.analysed(disc)
   for f, c in downs:
     ctx.ob('R-OWN', f, "ConnectionDown is raised only by Connection.disconnect (`%s`)" % norm(c.func), f is disc, "in disconnect" if f is disc else "%s raises ConnectionDown" % f.qual, (f.module, c), 'D4')
+  # the handshake ends by re-binding con.handlers; messages that follow the barrier reply in the same read must already be
+  # dispatched through the new table, so the read loop fetches the table from the connection for every message
+  rd = con.methods.get('read')
+  rebinds = [(f_, st_) for c_ in mod.classes.values() for f_ in c_.methods.values() for t_, v_, st_, k_ in q.stores_in(f_.node)
+             if isinstance(t_, ast.Attribute) and t_.attr == 'handlers' and f_.name != '__init__']
+  if rd is not None and rebinds:
+    ctx.analysed(rd); gr = q.cfg_of(rd)
+    loops_ = [(st_, h_, a_) for st_, h_, a_ in gr.loop_nodes]
+    n_tbl = 0
+    for n in gr.nodes:
+      if n.ast is None or n.kind in ('def', 'branch', 'handler', 'join', 'for'): continue
+      lp = [(st_, h_) for st_, h_, a_ in loops_ if n in gr.loop_body_nodes(h_)]
+      if not lp: continue
+      for x in (walk_no_nested(n.ast) if not isinstance(n.ast, (ast.For, ast.While, ast.If, ast.With, ast.Try)) else []):
+        if not (isinstance(x, ast.Subscript) and isinstance(x.ctx, ast.Load)): continue
+        if isinstance(x.value, ast.Attribute) and x.value.attr == 'handlers' and norm(x.value.value) == 'self':
+          n_tbl += 1
+          ctx.ob('R-ORDER', rd, "each message is dispatched through the connection's current handler table", True, "self.handlers read inside the loop", (mod, x), 'D3'); continue
+        if isinstance(x.value, ast.Name):
+          pv = q.provenance(gr, n, x.value.id)
+          from_tbl = [(d_, kind, val) for d_, kind, val in pv if val is not None and isinstance(val, ast.Attribute) and val.attr == 'handlers' and norm(val.value) == 'self']
+          if not from_tbl: continue
+          n_tbl += 1
+          body = gr.loop_body_nodes(lp[0][1])
+          stale = [d_ for d_, kind, val in from_tbl if d_ not in body]
+          ctx.ob('R-ORDER', rd, "each message is dispatched through the connection's current handler table", not stale, "table fetched per message" if not stale else
+                 "`%s` is taken from self.handlers once, before the loop (`%s`), but %s re-binds con.handlers when the handshake completes (`%s`): messages that share a read with the barrier reply are still dispatched to the handshake handlers - "
+                 "a port status or packet-in right after the handshake is lost, a second barrier reply raises ConnectionUp again" % (x.value.id, stale[0].text(40), rebinds[0][0].name, norm(rebinds[0][1])[:50]), (mod, x), 'D3')
+    ctx.floor('handler-table dispatch sites in read()', n_tbl, 1)
   # ---- D1 callers of _finish_connecting --------------------------------------------------
   callers = []
   for m in (mod, nmod):
